@@ -124,6 +124,37 @@ pub trait PosOracle: Send + Sync + 'static {
     fn max_nulls(&self) -> u8 {
         0
     }
+    /// true: the action menu is what the *library* generates and the state key is the library's
+    /// observable position (the exploration follows the implementation's own graph)
+    fn lib_driven(&self) -> bool {
+        false
+    }
+}
+
+/// Observable position as a reference position (None if piece_on/color_on are inconsistent).
+pub fn obs_to_pos(o: &Obs) -> Option<RefPos> {
+    let mut p = RefPos::empty();
+    for s in 0..64usize {
+        if o.bd[s] > 12 {
+            return None;
+        }
+        p.bd[s] = o.bd[s];
+    }
+    p.stm = o.stm;
+    p.castle = o.castle;
+    p.dp = o.ep.map(|s| file_of(s)).unwrap_or(-1);
+    Some(p)
+}
+pub fn menu_for<O: PosOracle + ?Sized>(oracle: &O, s: &St) -> Vec<RMove> {
+    if oracle.lib_driven() {
+        let b = s.lib;
+        let mut v = guard::lib(move || lib_moves(&b)).unwrap_or_default();
+        v.sort();
+        v.dedup();
+        v
+    } else {
+        menu(&s.key)
+    }
 }
 
 fn crumb_decode(b: &[u8]) -> String {
@@ -197,7 +228,16 @@ pub fn step<O: PosOracle + ?Sized>(oracle: &O, run: &Run, pre: &St, a: &Act, clo
         Act::Mv(m) => {
             let lm = lmove(*m);
             let b = pre.lib;
-            (pre.key.apply(*m), guard::lib(move || Some(b.make_move_new(lm))), pre.nulls)
+            let r = guard::lib(move || Some(b.make_move_new(lm)));
+            let key = if oracle.lib_driven() {
+                match &r {
+                    Ok(Some(nb)) => obs_to_pos(&observe(nb)).unwrap_or(pre.key),
+                    _ => pre.key,
+                }
+            } else {
+                pre.key.apply(*m)
+            };
+            (key, r, pre.nulls)
         }
         Act::Null => {
             let b = pre.lib;
@@ -288,7 +328,7 @@ impl<O: PosOracle> Model for PosGraph<O> {
         if s.viol || (!self.closure && s.depth >= self.max_depth) || self.run.has_violation() {
             return;
         }
-        for m in menu(&s.key) {
+        for m in menu_for(&*self.oracle, s) {
             out.push(Act::Mv(m));
         }
         if s.nulls < self.oracle.max_nulls() {
@@ -392,7 +432,7 @@ pub fn dfs_from<O: PosOracle + ?Sized>(oracle: &O, run: &Run, s: &St, depth: u8)
     if depth == 0 {
         return true;
     }
-    let mut acts: Vec<Act> = menu(&s.key).into_iter().map(Act::Mv).collect();
+    let mut acts: Vec<Act> = menu_for(oracle, s).into_iter().map(Act::Mv).collect();
     if s.nulls < oracle.max_nulls() {
         acts.push(Act::Null);
     }
@@ -421,7 +461,7 @@ pub fn replay_path<O: PosOracle + ?Sized>(oracle: &O, run: &Run, case: &Value) -
     }
     for a in acts {
         if let Act::Mv(m) = a {
-            if !s.key.legal_moves().contains(&m) {
+            if !menu_for(oracle, &s).contains(&m) {
                 return Err(format!("replay divergence: {m} is not legal at {}", s.key.fen()));
             }
         }
